@@ -25,8 +25,8 @@ from txdbus import authentication, client as t_client, error as t_error
 
 PROPERTY = 'C07'
 LEVEL = 'exploration'
-QUICK_RUNS = 8000
-QUICK_BUDGET_S = 90
+QUICK_RUNS = 80000
+QUICK_BUDGET_S = 60
 THOROUGH_BUDGET_S = 600
 RULE = ('server line scripts over the authentication alphabet (all sequences of length <= 4 '
         'over 7 symbols x unix/tcp as a sweep; random scripts of up to 20 lines over 18 '
